@@ -49,7 +49,23 @@ def _operand_pool(rng, nodes, nm, k0, want, p_const=0.3):
     return pool, k
 
 
+def _fresh(nodes, base):
+    used = {n[0] for n in nodes}
+    n, k = base, 0
+    while n in used:
+        n, k = f"{base}{k}x", k + 1
+    return n
+
+
+def _check_unique(d):
+    names = [n[0] for n in d["nodes"]]
+    assert len(names) == len(set(names)), names
+    return d
+
+
 def _rename(d, old, new):
+    if any(n[0] == new for n in d["nodes"]):
+        return
     for n in d["nodes"]:
         if n[0] == old:
             n[0] = new
@@ -66,25 +82,25 @@ def _finish(rng, d):
             n[2] = True
     if rng.random() < 0.5:
         rng.shuffle(d["nodes"])
-    return d
+    return _check_unique(d)
 
 
 def gen_fanin_struct(rng, t, k, ar):
     nm = _names(rng)
     nodes = []
     pool, idx = _operand_pool(rng, nodes, nm, 0, max(ar, 2))
-    g = rng.choice(["g", "tgt", nm(idx)]); idx += 1
+    g = _fresh(nodes, rng.choice(["g", "tgt", nm(idx)])); idx += 1
     nodes.append([g, t, rng.random() < 0.5, sorted(rng.sample(pool, ar))])
     d = {"name": "top", "nodes": nodes, "bbs": []}
     tags = []
     # downstream logic, a second gate above k
     if rng.random() < 0.5:
-        nodes.append([nm(idx), rng.choice(["not", "buf"] + MULTI), True, sorted({g, rng.choice(pool)})][:4]); idx += 1
+        nodes.append([_fresh(nodes, nm(idx)), rng.choice(["not", "buf"] + MULTI), True, sorted({g, rng.choice(pool)})][:4]); idx += 1
         if nodes[-1][1] in ("not", "buf"):
             nodes[-1][3] = [g]
     if rng.random() < 0.35 and len(pool) > k:
         t2 = rng.choice(MULTI)
-        nodes.append([nm(idx), t2, True, sorted(rng.sample(pool + [g], min(len(pool) + 1, k + rng.randint(1, 2))))]); idx += 1
+        nodes.append([_fresh(nodes, nm(idx)), t2, True, sorted(rng.sample(pool + [g], min(len(pool) + 1, k + rng.randint(1, 2))))]); idx += 1
         tags.append("second")
     # helper-name clashes
     r = rng.random()
@@ -107,7 +123,7 @@ def gen_fanout_struct(rng, t, k, nl):
     nm = _names(rng)
     nodes = []
     pool, idx = _operand_pool(rng, nodes, nm, 0, 3, p_const=0.15)
-    s = rng.choice(["s", "src", nm(idx)]); idx += 1
+    s = _fresh(nodes, rng.choice(["s", "src", nm(idx)])); idx += 1
     if t in ("input", "0", "1", "x"):
         nodes.append([s, t, rng.random() < 0.3, []])
     elif t in ("buf", "not"):
@@ -123,7 +139,7 @@ def gen_fanout_struct(rng, t, k, nl):
         else:
             others = pool + (loads if rng.random() < 0.3 else [])
             fi = sorted({s, *rng.sample(others, rng.randint(0 if rng.random() < 0.15 else 1, min(2, len(others))))})
-        nodes.append([nm(idx), lt, rng.random() < 0.4, fi]); loads.append(nm(idx)); idx += 1
+        ln = _fresh(nodes, nm(idx)); nodes.append([ln, lt, rng.random() < 0.4, fi]); loads.append(ln); idx += 1
     d = {"name": "top", "nodes": nodes, "bbs": []}
     if rng.random() < 0.3 and loads:
         # a second node above k: one of the operands drives many loads too
